@@ -9,7 +9,8 @@ Local Open Scope N_scope.
 
 (** What the harness does at quiescent points. *)
 Inductive envact :=
-| EnvNew (c : N) (k : ctxk) (sd closeall : bool)   (* a goroutine enters transport.call *)
+| EnvNew (c : N) (k : ctxk) (sd closeall side : bool)   (* a goroutine enters transport.call *)
+| EnvDeliver (c : N)                               (* the side connection of dial c arrives *)
 | EnvFrame (c : N) (good : bool)                   (* the peer sends a reply to call c *)
 | EnvSever                                         (* the connection is lost *)
 | EnvBreak                                         (* websocket writes fail from now on *)
@@ -24,6 +25,7 @@ Definition caller_actions (c : N) (x : caller) : list action :=
   | CStart => [ACheck c]
   | CEnq => map (AEnq c) (seq 0 (List.length (enq_arms g)))
   | CWait => map (AWait c) (seq 0 (List.length (wait_arms g)))
+  | CBox => map (ABox c) (seq 0 (List.length (box_arms g)))
   | CRet => if c_closeall x then [AFront c] else []
   | CFront => []
   end.
@@ -58,7 +60,8 @@ Fixpoint replay (evs : list envact) (s : state) (wok : bool) : state :=
   | [] => s
   | e :: r =>
       match e with
-      | EnvNew c k sd ca => replay r (settle 2000 (try_step s (ANew c k sd ca)) wok) wok
+      | EnvNew c k sd ca sf => replay r (settle 2000 (try_step s (ANew c k sd ca sf)) wok) wok
+      | EnvDeliver c => replay r (settle 2000 (try_step s (ADeliver c)) wok) wok
       | EnvFrame c good => replay r (settle 2000 (try_step s (AFrame c good)) wok) wok
       | EnvSever => replay r (settle 2000 (try_step s AReaderStop) wok) wok
       | EnvBreak => replay r s false
